@@ -3,6 +3,15 @@
 import json
 claimed = {
  "C01": ("exploration", "Seeded search over schedules, payload sizes, fragmentations and completion orders of the real client/server code under the simulator; oracle: every error-free completion carries F(own arguments) byte for byte (unique ids + payload digests), re-checked at end of run."),
+ "C02": ("exploration", "Seeded search over interleavings of request write failure (EPIPE after a cut, closed codec), response arrival, peer FIN/RST at a byte offset, local Close and server kill, with the connection reader optionally starved; oracle: every private Done channel (capacity 4) received its call exactly once, Error unchanged between first signal and end of run, no blocking call left blocked."),
+ "C03": ("fault_enumeration", "Cut points are enumerated (conversation x direction x FIN/RST x byte offset; Close/kill at every op index) and crossed with sampled schedules; oracle: nobody hangs, calls after a reported loss fail at once with ErrShutdown, responses whose complete frame precedes the cut still succeed (wire tap), successful calls carry the right reply. Not exhaustive: schedules are sampled."),
+ "C04": ("exploration", "Handler execution log and independent wire-tap decoder against the set of calls the clients made: executions per id <= 1 (==1 for successful calls and in fault-free runs), argument digest equal, no phantom executions, <=1 request and response frame per (connection, seq)."),
+ "C05": ("exploration", "Server pipelining in all accept modes x direct/batched I/O x client pipelining: handler intervals per connection are disjoint and in wire order, response frames in request order, arrivals on a shared Done channel in issue order (failures included)."),
+ "C06": ("exploration", "Concurrent mixes of succeeding calls, handler errors (1 B..40 KB UTF-8), unknown methods, undecodable arguments, unencodable replies and unencodable requests; oracle: exactly the failing calls fail, text equals handler text and the text on the wire, text re-read at end of run (aliasing), reply object untouched, neighbours correct, no residue in NumCalls."),
+ "C09": ("exploration", "1-3 streams per connection next to unary calls and pings, client-first / server-push-first / both; oracle: per stream and direction received id sequence == sent sequence (prefix after an injected cut), payload digests, no foreign stream ids."),
+ "C10": ("exploration", "Stream close / FIN / RST / Conn.Close / server kill at a PRNG instant x accept mode (non-poll, poll fallback, poll epoll-model); oracle: blocked readers on both ends released with ErrStreamShutdown, handler goroutine returned by end of run, later Read/Write report ErrStreamShutdown, sibling streams and calls undisturbed."),
+ "C11": ("exploration", "Handlers retain argument bytes, callers retain replies (incl. caller-supplied context buffers with a guard pattern) and stream messages, followed by >=4x further traffic in the same pool size classes with LIFO pool reuse; oracle: digests unchanged at end of run, nothing written beyond the reply length, buffer used iff large enough."),
+ "C19": ("exploration", "CallWithContext with deadlines before / at / after the scripted handler latency, never-answering handlers, pre-cancelled contexts, context buffers around the reply size, next to sibling calls; exact fake-clock oracle: reply iff handler latency < deadline, context error exactly at the deadline otherwise, siblings unharmed."),
 }
 pending = {}
 na = {
